@@ -606,7 +606,7 @@ public:
         return theSubstring.assign(
                     *this,
                     thePosition,
-                    theCount == npos ? length() : theCount);
+                    theCount == npos ? length() - thePosition : theCount);
     }
 
     int
